@@ -41,13 +41,24 @@ let () = iter_lines (fun line ->
       match step c !s0 O with Some s' -> s0 := s' | None -> continue := false
     done;
     let tids = List.init (nt - 1) (fun i -> nat_of_int (i + 1)) in
-    let (terms, nstates, ntrans, trunc) = explore (step c) tids (fun _ -> true) !s0 3000000 in
+    (* property-level observers on the model itself: a transition on which the head version decreases ("version bumped on
+       every push"), terminal states in which a value has two holders or emplace handed out one id twice *)
+    let regress = ref 0 in
+    let step' s t = match step c s t with
+      | Some s' -> if int_of_z s'.sh.hk < int_of_z s.sh.hk then incr regress; Some s'
+      | None -> None in
+    let (terms, nstates, ntrans, trunc) = explore step' tids (fun _ -> true) !s0 3000000 in
+    let has_dup l = List.length (List.sort_uniq compare l) <> List.length l in
+    let dupheld = List.length (List.filter (fun s -> has_dup (List.map int_of_z (held_values s))) terms) in
+    let dupids = List.length (List.filter (fun s ->
+        has_dup (List.map (fun (v, k) -> (int_of_z v, int_of_z k)) s.sh.ids)) terms) in
     let outs = Hashtbl.create 64 in
     let bad = ref 0 in
     List.iter (fun s ->
       if not (all_done s) then incr bad;
       Hashtbl.replace outs (show_outcome c s) ()) terms;
     let l = List.sort compare (Hashtbl.fold (fun k () acc -> k :: acc) outs []) in
-    Printf.printf "%s states=%d trans=%d trunc=%b stuck=%d outcomes=%s\n" id nstates ntrans trunc !bad
+    Printf.printf "%s states=%d trans=%d trunc=%b stuck=%d regress=%d dupheld=%d dupids=%d outcomes=%s\n" id nstates ntrans
+      trunc !bad !regress dupheld dupids
       (String.concat ";" l)
   | _ -> ())
